@@ -286,6 +286,17 @@ pub fn describe_event(e: &SupervisionEvent) -> String {
     }
 }
 
+/// default build: a program whose first step is `Panic("..prelude")` panics in the SYNCHRONOUS part of the callback
+/// (the explicit `fn .. -> impl Future` form has one), i.e. when the runtime calls the function, before there is a
+/// future it could guard; the invocation has been logged by then, so the log shows Enter + Panicked
+pub fn prelude_panic(steps: &[Step]) {
+    if let Some(Step::Panic(m)) = steps.first() {
+        if m.ends_with("prelude") {
+            panic!("{}", m);
+        }
+    }
+}
+
 /// The programmable actor. `Default`, so it can also be spawned as a thread-local actor through
 /// ractor's blanket `ThreadLocalActor` implementation (which runs thread_local/inner.rs).
 #[derive(Default)]
@@ -303,9 +314,7 @@ impl Actor for Probe {
         let g = Entered::now(&a.log, &a.id, Cb::PreStart, 0);
         // a first step Panic("prelude") panics HERE, in the synchronous part of the callback, before there is a
         // future the runtime could guard
-        if matches!(a.prog.pre_start.first(), Some(Step::Panic("prelude"))) {
-            panic!("pre_start panics in its synchronous prelude");
-        }
+        prelude_panic(&a.prog.pre_start);
         async move {
             let mut version = 0;
             run_entered(g, a.prog.pre_start.clone(), myself, &mut version).await?;
@@ -315,6 +324,7 @@ impl Actor for Probe {
     fn post_start(&self, myself: ActorRef<PMsg>, s: &mut ProbeState) -> impl std::future::Future<Output = Result<(), ActorProcessingErr>> + Send {
         let g = Entered::now(&s.log, &s.id, Cb::PostStart, s.version);
         let steps = s.prog.post_start.clone();
+        prelude_panic(&steps);
         async move { run_entered(g, steps, myself, &mut s.version).await }
     }
     fn handle(&self, myself: ActorRef<PMsg>, m: PMsg, s: &mut ProbeState) -> impl std::future::Future<Output = Result<(), ActorProcessingErr>> + Send {
@@ -322,6 +332,9 @@ impl Actor for Probe {
             PMsg::Do { tag, .. } | PMsg::Call { tag, .. } => *tag,
         };
         let g = Entered::now(&s.log, &s.id, Cb::Handle(tag), s.version);
+        match &m {
+            PMsg::Do { steps, .. } | PMsg::Call { steps, .. } => prelude_panic(steps),
+        }
         async move {
             match m {
                 PMsg::Do { steps, .. } => run_entered(g, steps, myself, &mut s.version).await,
@@ -336,11 +349,13 @@ impl Actor for Probe {
     fn handle_supervisor_evt(&self, myself: ActorRef<PMsg>, e: SupervisionEvent, s: &mut ProbeState) -> impl std::future::Future<Output = Result<(), ActorProcessingErr>> + Send {
         let g = Entered::now(&s.log, &s.id, Cb::Sup(describe_event(&e)), s.version);
         let steps = s.prog.sup.clone();
+        prelude_panic(&steps);
         async move { run_entered(g, steps, myself, &mut s.version).await }
     }
     fn post_stop(&self, myself: ActorRef<PMsg>, s: &mut ProbeState) -> impl std::future::Future<Output = Result<(), ActorProcessingErr>> + Send {
         let g = Entered::now(&s.log, &s.id, Cb::PostStop, s.version);
         let steps = s.prog.post_stop.clone();
+        prelude_panic(&steps);
         async move { run_entered(g, steps, myself, &mut s.version).await }
     }
 }
